@@ -32,6 +32,15 @@ CHECKS.update({
    note=PT_NOTE),
 })
 
+CHECKS.update({
+ "C10": dict(level="model_checking", ref="3 C10", technique="exhaustive operation-sequence exploration (E-SEQ) of real Consist objects over all ordered compositions of <= 3 unit variants (+ all {conv,BEL}^4) x both policies x consist-level demand letters incl. the battery-first boundary",
+   text="Every ordered composition up to 3 units from the unit-variant alphabet (differing ratings and SOC, units inside both derating ramps and at the SOC floor), all {conv,BEL}^4 and representative 5..8-unit consists, under Proportional and RESGreedy, are stepped through every demand sequence within the bound; on every accepted step the split is checked for conservation, per-unit capability, sign discipline, regeneration placement and battery-first dispatch.",
+   note="stated bound n <= 4 exhaustive, larger consists representative; trusts the per-unit limits the units publish (those are C09's subject)"),
+ "C16": dict(level="fault_enumeration", ref="3 C16", technique="exhaustive single-fault enumeration: every mutation kind x every link x every valid base network, through every loader; independent reference validity predicate",
+   text="Each documented rule is broken in isolation at every link of every base network (plus out-of-range, NaN, infinite and negative field values, and mutations that must stay valid), and the verdict of ObjState::validate / Network::from_json / from_yaml / from_file is compared with an independently written reference predicate; a panic is a violation; the legacy file layout must load to the same network.",
+   note="trusts the 150-line reference predicate written from the documented rules; single faults only (no fault pairs)"),
+})
+
 def main():
     checks = []
     for pid in sorted(CHECKS):
